@@ -13,6 +13,7 @@ func hookTask(host int, after bool, w int, crit bool) Role {
 	return Role{Kind: KHookTask, Host: host, After: after, W: w, Crit: crit}
 }
 func hookCall(after bool, w int) Role { return Role{Kind: KHookCall, After: after, W: w} }
+func leaveCall(st int) Role           { return Role{Kind: KLeave, St: st} }
 
 func corpus(tier string) ([]History, []string) {
 	var hs []History
@@ -125,6 +126,43 @@ func corpus(tier string) ([]History, []string) {
 		Op{K: "control", E: 1, Ev: 2},
 		Op{K: "destroy", E: 1, Force: true, Keep: true},
 		Op{K: "cleanup"})
+	// seeded change C04-2: a status update from the master must not unlock an owned task
+	add("recon-then-others",
+		cr(0, []int{0}, plain(0, true), plain(1, false)),
+		cr(1, []int{2}, plain(2, true), hookTask(2, false, 1, false)),
+		Op{K: "recon"},
+		Op{K: "cleanup"},
+		cr(2, []int{3}, plain(3, true)),
+		Op{K: "kill", Ids: []int{tidOf(0, 0), tidOf(1, 0)}},
+		Op{K: "control", E: 0, Ev: 2},
+		Op{K: "destroy", E: 2},
+		Op{K: "destroy", E: 0, Allow: true},
+		Op{K: "destroy", E: 1})
+	add("reconnect-then-cleanup",
+		cr(0, []int{0}, plain(0, true), plain(0, true)),
+		Op{K: "control", E: 0, Ev: 2},
+		Op{K: "recon", Reconn: true},
+		Op{K: "cleanup"},
+		Op{K: "control", E: 0, Ev: 3},
+		Op{K: "destroy", E: 0})
+	// seeded change C06-2: calls started by the leave_<state> hooks the teardown itself runs
+	add("leave-call-forced-configured",
+		cr(0, []int{0}, plain(0, true), leaveCall(2), Role{Kind: KPend}),
+		Op{K: "destroy", E: 0, Force: true})
+	add("leave-call-forced-running",
+		cr(0, []int{2}, plain(2, true), leaveCall(3), leaveCall(3), leaveCall(2), hookCall(false, 0)),
+		Op{K: "control", E: 0, Ev: 2},
+		Op{K: "destroy", E: 0, Force: true, Keep: true},
+		Op{K: "cleanup"})
+	add("leave-call-failed-creation",
+		Op{K: "create", E: 0, Spec: &Spec{Hosts: []int{3}, Roles: []Role{plain(3, true), {Kind: KPlain, Host: 3, Crit: true, Cfg: true}, leaveCall(4), {Kind: KPend}}}},
+		Op{K: "create", E: 1, Spec: &Spec{Hosts: []int{0}, Roles: []Role{plain(0, true), {Kind: KPlain, Host: 0, Crit: true, Launch: 1}, leaveCall(4), leaveCall(2)}}})
+	add("leave-call-graceful",
+		cr(0, []int{0}, plain(0, true), leaveCall(2), leaveCall(3), leaveCall(4)),
+		Op{K: "control", E: 0, Ev: 2},
+		Op{K: "control", E: 0, Ev: 3},
+		Op{K: "control", E: 0, Ev: 2, Fail: true},
+		Op{K: "destroy", E: 0, Allow: true})
 	add("create-undeployable",
 		Op{K: "create", E: 0, Spec: &Spec{Hosts: []int{0}, Fail: 4, Roles: []Role{plain(0, true)}}},
 		cr(1, []int{0}, plain(0, true)))
@@ -209,6 +247,11 @@ func genSpec(r *gen.Rand, envs []*genEnv, allowSlow bool) *Spec {
 	}
 	if r.Chance(1, 4) {
 		s.Roles = append(s.Roles, Role{Kind: KPend})
+	}
+	if r.Chance(1, 4) {
+		for i, n := 0, r.Range(1, 2); i < n; i++ {
+			s.Roles = append(s.Roles, leaveCall([]int{2, 3, 4, 2, 3}[r.Intn(5)]))
+		}
 	}
 	// shuffle everything but keep a critical plain role somewhere
 	p := r.Perm(len(s.Roles))
@@ -374,9 +417,9 @@ func randomHistory(r *gen.Rand, allowSlow bool) (History, string) {
 		case x < 84 && len(envs) > 0:
 			// an environment that is gone, or was never there
 			h.Ops = append(h.Ops, Op{K: "destroy", E: r.Intn(len(envs) + 1), Force: r.Chance(1, 2)})
-		case x < 90:
+		case x < 89:
 			h.Ops = append(h.Ops, Op{K: "cleanup"})
-		case x < 95:
+		case x < 94:
 			kt := knownTasks()
 			var ids []int
 			for _, t := range kt {
@@ -389,6 +432,14 @@ func randomHistory(r *gen.Rand, allowSlow bool) (History, string) {
 			}
 			if len(ids) > 0 {
 				h.Ops = append(h.Ops, Op{K: "kill", Ids: ids})
+			}
+		case x < 96:
+			// status updates from the master for every running task (1/4 after a dropped connection)
+			if len(al) > 0 {
+				h.Ops = append(h.Ops, Op{K: "recon", Reconn: r.Chance(1, 4)})
+				if r.Chance(1, 2) {
+					h.Ops = append(h.Ops, Op{K: "cleanup"})
+				}
 			}
 		case x < 98:
 			// the executor (1/4: the agent) of a non-critical task fails; the harness skips the
